@@ -63,3 +63,8 @@ func (hc *Honeytrap) VerifPorts() map[string][]string {
 func VerifCompareAddr(a, b net.Addr) bool {
 	return compareAddr(a, b)
 }
+
+// VerifToken returns the sensor token the instance attaches to events.
+func (hc *Honeytrap) VerifToken() string {
+	return hc.token
+}
